@@ -164,6 +164,24 @@ class BuiltWorld:
 
                 self.ns[key] = OUnion[eval(inner, self.ns), typing.Literal["zz-never-passed"]]
             return key
+        if k == "uniondep":
+            # the hook-defined type in a union with a value-dependent member whose bound (a plain class, or object) also admits
+            # classes the hook-defined member rejects: the generated value dispatcher asks the class-level member about those
+            # too, and its "no" is as much a resolved fact as its "yes" (C20)
+            inner = self.type_expr(t["inner"])
+            bound = self.type_expr({"k": "cls", "c": t["bound"]})
+            key = "UND_" + "".join(ch if ch.isalnum() else "_" for ch in inner) + f"_{bound}_{int(bool(t['holds']))}"
+            if key not in self.ns:
+                from ovld import Dependent
+                from ovld.types import Union as OUnion
+
+                _h = bool(t["holds"])
+
+                def holds(value):
+                    return _h
+
+                self.ns[key] = OUnion[eval(inner, self.ns), Dependent[eval(bound, self.ns), holds]]
+            return key
         if k == "raw":
             return t["expr"]
         raise ValueError(f"unknown type term {t}")
